@@ -51,10 +51,6 @@ def showBuckets (g : List (Bytes × List Nat)) : String :=
 def keyedRows (strict : Bool) (ncols : Nat) (toks : List KTok) : List (Bytes × Nat) :=
   (chunk ncols toks).zipIdx.map fun (r, i) => (rowKey strict r, i)
 
-def keepFirst (rows : List (Bytes × Nat)) : List (Bytes × Nat) :=
-  (rows.foldl (fun (acc : List Bytes × List (Bytes × Nat)) r =>
-    if r.1 ∈ acc.1 then acc else (acc.1 ++ [r.1], acc.2 ++ [r])) ([], [])).2
-
 def c04 (cmd : String) (args : List String) : String :=
   let bad := "bad-op"
   match cmd, args with
@@ -72,7 +68,7 @@ def c04 (cmd : String) (args : List String) : String :=
     | _, _, _, _ => bad
   | "distinct", s :: nc :: toks =>
     match parseBool s, nc.toNat?, toks.mapM parseKTok with
-    | some strict, some ncols, some ks => showIdx (distinctImpl (keyedRows strict ncols ks))
+    | some strict, some ncols, some ks => showIdx ((keepFirst (keyedRows strict ncols ks)).map Prod.snd)
     | _, _, _ => bad
   | "setop", op :: all :: s :: nc :: na :: toks =>
     -- rows 0..na-1 belong to the left operand, the rest to the right one
@@ -81,13 +77,10 @@ def c04 (cmd : String) (args : List String) : String :=
       let rows := keyedRows strict ncols ks
       let a := rows.take na
       let b := rows.drop na
-      let bkeys := b.map Prod.fst
       let res := match op with
-        | "union" => if all then a ++ b else keepFirst (a ++ b)
-        | "except" =>
-          let r := a.filter (fun (r : Bytes × Nat) => !(bkeys.contains r.1)); if all then r else keepFirst r
-        | "intersect" =>
-          let r := a.filter (fun (r : Bytes × Nat) => bkeys.contains r.1); if all then r else keepFirst r
+        | "union" => unionImpl all a b
+        | "except" => exceptImpl all a b
+        | "intersect" => intersectImpl all a b
         | _ => []
       showIdx (res.map Prod.snd)
     | _, _, _, _, _ => bad
